@@ -93,6 +93,10 @@ type ChunkReader struct {
 	rkey    cbor.RawBytes
 	key     string
 	buffer  []byte
+
+	// number of chunks returned since the last ErrSizeTooSmall, i.e. put into
+	// the message currently being assembled by the caller
+	inMessage int
 }
 
 // ReadChunk reads ServiceInfo chunked at some MTU. The values contain any
@@ -122,6 +126,14 @@ func (r *ChunkReader) ReadChunk(size uint16) (*KV, error) {
 			// that the writer wants to force a message break, so no combining
 			// data chunks up to the MTU
 			if errors.Is(err, io.EOF) {
+				// Nothing has been put into the current message yet, so the
+				// break the writer asked for is already in effect. Reporting
+				// it would make the caller send an empty message and stop
+				// before the service info that follows.
+				if r.inMessage == 0 {
+					return r.ReadChunk(size)
+				}
+				r.inMessage = 0
 				err = ErrSizeTooSmall
 			}
 
@@ -154,6 +166,7 @@ func (r *ChunkReader) ReadChunk(size uint16) (*KV, error) {
 		maxOverhead++
 	}
 	if int(size)-maxOverhead <= 0 {
+		r.inMessage = 0
 		return nil, ErrSizeTooSmall
 	}
 
@@ -179,6 +192,7 @@ func (r *ChunkReader) ReadChunk(size uint16) (*KV, error) {
 	val := make([]byte, n)
 	copy(val, r.buffer[:n])
 
+	r.inMessage++
 	return &KV{
 		Key: r.key,
 		Val: val,
